@@ -464,7 +464,7 @@ SUB_UNIVERSE = [None, True, 1, 1.5, "a", [], [1], {"a": 1}]
 def c05_program(r):
     g = Gen(r)
     p = lambda: g.pathexpr(r.choice([0, 1, 1, 2]))
-    k = r.randrange(26)
+    k = r.randrange(28)
     v = r.choice(["$v0", "$v1", ".", ".x", ".a", ".p", ".q", ".r", ".c"])
     if k == 0:
         return "%s + %s" % (v, r.choice(['["x"]', "[1,2]", v, '{"z":1}', "null"]))
@@ -514,4 +514,12 @@ def c05_program(r):
         return "map_values(. + 1)?, map(.)?, (keys? as $k | $k), add?, any?, all?"
     if k == 23:
         return "tojson, tostring, @json, (tojson | fromjson), ([.] | join(\",\"))?"
+    if k in (24, 25):
+        # a path that goes THROUGH a slice and then deeper, updated in place
+        sl = r.choice([".[1:3]", ".[:2]", ".[1:]", ".a[:2]", ".c[0:1]", ".p[1:]", ".r[1:4]", ".q[:2]", ".[0][1:]"])
+        deep = r.choice(["[0]", "[1]", "[0].x", "[1].a", "[0][0]", "[-1]"])
+        upd = r.choice(["|= . + 10", "|= [.]", "= 5", "+= 1", "|= {n: .}", "|= tostring"])
+        base = r.choice(["", "", "$v0 | ", ". as $orig | "])
+        tail = " | ., $orig" if base.startswith(". as") else ""
+        return "%s(%s%s %s)?%s" % (base, sl, deep, upd, tail)
     return g.expr(3)
